@@ -8,7 +8,7 @@ ID = "C14"
 PROPS_FILE = "theories/Props/C14.v"
 EXTRACT = ("theories/Extract/XC14.v", "c14",
            ["entry_mec_ok", "entry_chrystal_many", "entry_sweep_many", "entry_feret_max", "entry_feret_min_ok", "entry_feret_lower_ok",
-            "entry_fill_model", "entry_fill_check", "entry_fill_hyp", "entry_chrystal_hyp_many", "entry_chrystal_vec", "entry_strict_convex_many", "entry_bf_min_many"])
+            "entry_fill_model", "entry_fill_check", "entry_fill_hyp", "entry_chrystal_hyp_many", "entry_chrystal_vec", "entry_strict_convex_many", "entry_bf_min_many", "entry_hull_ijv", "entry_hull_ijv_w"])
 PYX = {}
 RULE = ("ROUND 4: NO length bound - 1 x N, N x 1, 3 x N label images and slanted thin point bands with N up to 200 000 "
         "(squared lengths beyond 2^31) through the labels path and through convex_hull_ijv; wide objects at coordinates up "
@@ -226,6 +226,15 @@ def _exact_hull(pts):
     return [list(p) for p in lo[:-1] + up[:-1]]
 
 
+def _kernel_order(h):
+    """the storage order convex_hull itself produces: start at the vertex with the smallest (j, i), clockwise in (i, j)"""
+    if len(h) <= 2:
+        return sorted(h, key=lambda p: (p[1], p[0]))
+    s0 = min(range(len(h)), key=lambda k: (h[k][1], h[k][0]))
+    r = h[s0:] + h[:s0]
+    return [r[0]] + r[1:][::-1]
+
+
 def _big_wide(ctx, rng):
     """objects that are long AND wide at coordinates up to 1 000 000, handed to feret_diameter and
     minimum_enclosing_circle as hull point lists computed exactly by the harness (convex_hull is bypassed: its
@@ -251,8 +260,21 @@ def _big_wide(ctx, rng):
             rows.append([p[0], p[1], l])
     rng.shuffle(labs)
     ctx.count("class:big_wide_exact_hull<=%d" % scale)
+    order = str(rng.choice(["fwd", "rev", "rot"]))
+    # Objects reach minimum_enclosing_circle through convex_hull; hull_and_point_count is meant to carry its output.
+    # Reversed / rotated vertex cycles are an extra the check exercises below 150 000 px only: above, the arccos-based
+    # angle test can trip the function's own assert for orders convex_hull never produces (observation, reports/C14.md).
+    long3 = False
+    for l in labs:
+        P = np.array([r[:2] for r in rows if r[2] == l], dtype=np.int64)
+        ext = int(max(P[:, 0].max() - P[:, 0].min(), P[:, 1].max() - P[:, 1].min()))
+        if ext > 150000 and len(_exact_hull(P.tolist())) >= 3:
+            long3 = True
+    if long3 and order != "fwd":
+        ctx.count("excluded:reversed_or_rotated_hull_order_above_150000px")
+        order = "fwd"
     return {"ijv": rows, "hull_by": "harness", "labels": [[0]], "indexes": labs,
-            "order": str(rng.choice(["fwd", "rev", "rot"])), "rot": [int(rng.randint(0, 8)) for _ in labs]}
+            "order": order, "rot": [int(rng.randint(0, 8)) for _ in labs]}
 
 
 def _lab_array(case, dtype="int64"):
@@ -554,7 +576,7 @@ def impl(case):
     idx = list(case["indexes"])
     idx = idx if ik == "list" else tuple(idx) if ik == "tuple" else np.array(idx, ik)
     if case.get("hull_by") == "harness":
-        hs = [_exact_hull([r[:2] for r in case["ijv"] if r[2] == l]) for l in case["indexes"]]
+        hs = [_kernel_order(_exact_hull([r[:2] for r in case["ijv"] if r[2] == l])) for l in case["indexes"]]
         hull = np.array([[l, p[0], p[1]] for l, h in zip(case["indexes"], hs) for p in h], np.int32).reshape(-1, 3)
         cnt = np.array([len(h) for h in hs], np.int32)
     elif "ijv" in case:
@@ -1004,31 +1026,63 @@ def _check_feret_fill(ctx, cases, outs, res):
                           "each once with its label (Spec.FillSpec.fill_ok false); %d rows" % len(a[1]))
 
 
-C02_WRAP = "C02-CONVEX-int32"
+C02_WRAP = "F22/C14"
+
+
+def _case_ijv(case, out):
+    """the (i, j, label) rows the hull kernel receives for the requested labels (all pixels of each object)"""
+    rows = []
+    for l, pix, _ in _objects(case, out):
+        rows.extend([p[0], p[1], l] for p in pix)
+    return rows
+
+
+def _wrap_model_says(ctx, ijv, idx, hull, cnt):
+    """b02's attribution rule for finding F22 (findings/C02.json): the as-written int32 model of the hull kernel
+    (Model/HullW.v convex_hull_ijv_w) reproduces the hull the implementation returned AND the exact model
+    (Model/Hull.v) gives a different hull."""
+    w = ctx.run_model("entry_hull_ijv_w", [[ijv, idx]])[0]
+    e = ctx.run_model("entry_hull_ijv", [[ijv, idx]])[0]
+    if not isinstance(w, list) or not isinstance(e, list) or len(w) < 4 or len(e) < 4:
+        return False
+    return w[0] == hull and w[1] == cnt and (e[0] != hull or e[1] != cnt)
 
 
 def attribute(ctx, case, out, clause):
-    """A failure is attributed to C02's known finding (CONVEX() of _convex_hull.pyx wraps in int32) when the hull
-    that convex_hull returned for some object is not the exact hull of its pixels AND the object is large enough for
-    a wrap (doubled bounding-box area >= 2^31).  Anything else stays a violation of C14."""
-    if _bad(out) or case.get("hull_by") == "harness":
+    """A failure is attributed to C02's known finding F22 (CONVEX() of _convex_hull.pyx wraps in int32) only by the
+    model rule above.  Anything else stays a violation of C14."""
+    if _bad(out) or case.get("hull_by") == "harness" or case.get("order", "fwd") != "fwd":
         return None
+    # cheap necessary conditions first (the model run costs minutes on wide inputs): some object's returned hull is
+    # not its exact hull, and some triple of its pixels spans a doubled area >= 2^31 (only then can CONVEX() wrap)
+    import itertools
+    suspect = False
     for l, pix, h in _objects(case, out):
-        if not pix:
+        if not pix or sorted(map(tuple, h)) == sorted(map(tuple, _exact_hull(pix))):
             continue
         P = np.array(pix, dtype=np.int64)
-        if 2 * int(P[:, 0].max() - P[:, 0].min() + 1) * int(P[:, 1].max() - P[:, 1].min() + 1) < 2 ** 31:
-            continue
-        if sorted(map(tuple, h)) != sorted(map(tuple, _exact_hull(pix))):
-            return C02_WRAP
-    return None
+        if len(pix) <= 60:
+            wide = any(abs((b[0] - a[0]) * (c[1] - a[1]) - (b[1] - a[1]) * (c[0] - a[0])) >= 2 ** 31
+                       for a, b, c in itertools.combinations(pix, 3))
+        else:
+            wide = 2 * int(P[:, 0].max() - P[:, 0].min() + 1) * int(P[:, 1].max() - P[:, 1].min() + 1) >= 2 ** 31
+        suspect = suspect or wide
+    if not suspect:
+        return None
+    return C02_WRAP if _wrap_model_says(ctx, _case_ijv(case, out), list(case["indexes"]), out["hull"], out["cnt"]) else None
 
 
 def reproduce_finding(ctx, finding):
+    """F22 seen through C14: on the small-column witness of findings/C02.json (the models walk every column; the
+    46 341-column triangle costs minutes) the implementation's hull equals the as-written wrapped model's and differs
+    from the exact hull - so what the three functions of C14 receive is not the object's hull."""
     if finding.get("id") != C02_WRAP:
         return False
-    out = ctx.run_impl([finding["witness"]])[0]
-    return (not _bad(out)) and out["cnt"] != [3]
+    w = finding["witness"]
+    out = ctx.run_impl([w])[0]
+    if _bad(out):
+        return False
+    return _wrap_model_says(ctx, w["ijv"], list(w["indexes"]), out["hull"], out["cnt"])
 
 
 def nontrivial(case, out):
